@@ -10,7 +10,7 @@ from senaite.astm.mapping import Component
 
 VERSION = "1.0.0"
 # Supports H500 and H550
-HEADER_RX = r".*H5[0,5]0\^"
+HEADER_RX = r".*H5[05]0\^"
 
 
 def get_metadata(wrapper):
